@@ -704,3 +704,78 @@ Proof.
   destruct (M _ GR) as [e1 ->]. destruct (M _ GY) as [e2 ->]. reflexivity.
 Qed.
 End TraceRT.
+
+(* ================================================================================================
+   The same theorems under the boolean premises of Model/Encode.v (what Props/C08.v states)
+   ================================================================================================ *)
+(* a type MonkeyType can infer, or any rewritten form of one other than Tuple[T, ...]: no Tuple[T, ...],
+   no forward reference, unions in typing's normal form, TypedDict keys distinct *)
+Definition inferable (t : ty) : Prop := encodable t = true /\ union_nfb t = true /\ wf_tyb t = true.
+
+Section Ok.
+Variable cname : cls -> string * string.
+Variable fname : fid -> string * string.
+Variable site : string.
+Variable env : string -> string -> lookup.
+Variable hidden : string -> option cls.
+
+Definition ok_type (t : ty) : Prop := inferable t /\ Forall (importable cname env hidden) (classes t).
+Definition ok_opt (o : option ty) : Prop := match o with Some t => ok_type t | None => True end.
+Definition ok_trace (tr : trace) : Prop :=
+  importable_func fname env (tr_func tr)
+  /\ nodup_strb (map fst (tr_args tr)) = true
+  /\ Forall (fun a => ok_type (snd a)) (tr_args tr)
+  /\ ok_opt (tr_ret tr) /\ ok_opt (tr_yield tr).
+
+Lemma good_of_ok t : ok_type t -> good cname env hidden t.
+Proof. intros [[E [N W]] I]. apply good_of_bools; assumption. Qed.
+
+Lemma good_trace_of_ok tr : ok_trace tr -> good_trace cname fname env hidden tr.
+Proof.
+  intros [F [ND [A [R Y]]]]. split; [exact F|]. split; [exact ND|]. split.
+  - eapply Forall_impl; [|exact A]. intros a Ha. apply good_of_ok. exact Ha.
+  - split; [destruct (tr_ret tr)|destruct (tr_yield tr)]; cbn in *; try exact I; apply good_of_ok; assumption.
+Qed.
+
+Theorem type_roundtrip_ok t :
+  typing_ok env -> ok_type t ->
+  exists j t', type_to_json cname site t = Ok j /\ type_from_json env hidden j = Ok t' /\ corrb t t' = true.
+Proof. intros TOK [[E [N W]] I]. apply type_roundtrip; assumption. Qed.
+
+Theorem absent_vs_none_ok :
+  maybe_encode_type cname site None = Ok None
+  /\ maybe_decode_type env hidden None = Ok None
+  /\ maybe_decode_type env hidden (Some JNull) = Ok None
+  /\ (forall t e, maybe_encode_type cname site (Some t) = Ok e ->
+        e <> None /\ e <> Some JNull /\ maybe_decode_type env hidden e <> Ok None)
+  /\ (forall t, typing_ok env -> ok_type t ->
+        exists j t', maybe_encode_type cname site (Some t) = Ok (Some j)
+                     /\ maybe_decode_type env hidden (Some j) = Ok (Some t') /\ corrb t t' = true).
+Proof.
+  destruct (absent_vs_none cname site env hidden) as [H1 [H2 [H3 [H4 H5]]]].
+  repeat (split; [assumption|]). intros t TOK OKT. pose proof (good_of_ok t OKT) as G.
+  destruct (H5 t TOK G) as [j [E1 E2]]. exists j, (canon t). repeat split; try assumption.
+  eapply corr_canon. exact G.
+Qed.
+
+Theorem trace_roundtrip_ok tr :
+  typing_ok env -> ok_trace tr ->
+  exists r d,
+    from_trace cname fname site tr = Ok r
+    /\ to_trace env hidden r = Ok d
+    /\ r_module r = fst (fname (tr_func tr)) /\ r_qualname r = snd (fname (tr_func tr))
+    /\ dt_func d = OFunc (tr_func tr)
+    /\ args_corrb (tr_args tr) (dt_args d) = true
+    /\ opt_corrb (tr_ret tr) (dt_ret d) = true
+    /\ opt_corrb (tr_yield tr) (dt_yield d) = true
+    /\ (tr_ret tr = None <-> r_ret r = None) /\ (tr_ret tr = None <-> dt_ret d = None)
+    /\ (tr_yield tr = None <-> r_yield r = None) /\ (tr_yield tr = None <-> dt_yield d = None).
+Proof. intros TOK OKT. apply trace_roundtrip; [exact TOK|apply good_trace_of_ok; exact OKT]. Qed.
+
+Theorem serialize_traces_keeps_ok trs :
+  Forall ok_trace trs -> List.length (serialize_traces cname fname site trs) = List.length trs.
+Proof.
+  intros H. apply (serialize_traces_keeps cname fname site env hidden).
+  eapply Forall_impl; [|exact H]. intros tr. apply good_trace_of_ok.
+Qed.
+End Ok.
